@@ -10,9 +10,9 @@ Local Open Scope N_scope.
 
 Section Post.
 Variable rank : ip -> N.
-Variable post : svcobj -> Prop.
+Variable post : pools -> svcobj -> Prop.      (* may depend on the configuration the controller holds *)
 Hypothesis Hconv : forall a s o k v ok, minv a ->
-  converge rank a s o k = CR v ok -> post (with_status o (cv_status v) (cv_annot v)).
+  converge rank a s o k = CR v ok -> post (s_pools a) (with_status o (cv_status v) (cv_annot v)).
 
 Lemma with_status_id o : with_status o (o_status o) (o_annot o) = o.
 Proof. destruct o; reflexivity. Qed.
@@ -21,9 +21,9 @@ Lemma handler_post w s k w1 r o :
   apply_handler rank w s k = Some (w1, r) -> aget (w_api w) s = Some o ->
   c_have_pools (w_ctl w) = true -> minv (c_mem (w_ctl w)) ->
   r <> Error -> r <> ReprocessAll ->
-  forall o1, aget (w_api w1) s = Some o1 -> post o1.
+  forall o1, aget (w_api w1) s = Some o1 -> post (s_pools (c_mem (w_ctl w1))) o1.
 Proof.
-  unfold apply_handler. rewrite api_get_aget. intros H Eo Hp Hm Hr1 Hr2. rewrite Eo in H.
+  intros EH0. rewrite (apply_handler_pools rank _ _ _ _ _ EH0). revert EH0. unfold apply_handler. rewrite api_get_aget. intros H Eo Hp Hm Hr1 Hr2. rewrite Eo in H.
   destruct (set_balancer rank (w_ctl w) s (Some o) k) as [oc|] eqn:ES; [|discriminate].
   injection H as <- <-. cbn [w_api].
   destruct (set_balancer_mem rank _ _ _ _ _ ES Hp) as (v & ok & EC & _ & Hw).
@@ -38,20 +38,21 @@ Qed.
 
 Definition L (w : world) : Prop :=
   w_reload w = true \/ w_gate w = false \/
-  forall s o, aget (w_api w) s = Some o -> In s (w_queue w) \/ post o.
+  forall s o, aget (w_api w) s = Some o -> In s (w_queue w) \/ post (s_pools (c_mem (w_ctl w))) o.
 
 Lemma pass_post order : forall ks w retry acc w' retry' rs (D : svc -> Prop),
   reload_pass rank w order ks retry acc = Some (w', retry', rs) ->
   mem_inv (w_ctl w) -> c_have_pools (w_ctl w) = true ->
   retry' = false ->
-  (forall t o, D t -> aget (w_api w) t = Some o -> post o) ->
-  forall t o, D t \/ In t order -> aget (w_api w') t = Some o -> post o.
+  (forall t o, D t -> aget (w_api w) t = Some o -> post (s_pools (c_mem (w_ctl w))) o) ->
+  forall t o, D t \/ In t order -> aget (w_api w') t = Some o -> post (s_pools (c_mem (w_ctl w'))) o.
 Proof.
   induction order as [|s order IH]; intros ks w retry acc w' retry' rs D H Hm Hp Hr HD t o Ht.
   - cbn in H. injection H as <- _ _. destruct Ht as [Ht|[]]. apply HD. exact Ht.
   - cbn [reload_pass] in H. destruct ks as [|k ks]; [discriminate|].
     destruct (apply_handler rank w s k) as [[w1 r]|] eqn:EH; [|discriminate].
     pose proof (apply_handler_inv rank w s k w1 r EH (fun _ => Hp) Hm) as (F1 & Ex1 & Hm1 & Hp1 & _).
+    pose proof (apply_handler_pools rank _ _ _ _ _ EH) as Hps.
     pose proof (reload_pass_inv rank _ _ _ _ _ _ _ _ H Hm1 (Hp1 Hp)) as (_ & _ & _ & _ & _ & _ & Rt & _).
     assert (Hrr : r <> ReprocessAll /\ r <> Error).
     { split; intros ->; (assert (retry' = true) by (apply Rt; destruct retry; reflexivity)); congruence. }
@@ -60,7 +61,7 @@ Proof.
       * destruct (N.eq_dec u s) as [->|Hne].
         -- case_eq (aget (w_api w) s); [intros os Eos|intros Eos; apply Ex1 in Eos; congruence].
            exact (handler_post _ _ _ _ _ _ EH Eos Hp Hm (proj2 Hrr) (proj1 Hrr) ou Hou).
-        -- rewrite (proj1 (F1 u Hne)) in Hou. apply (HD u ou Hu Hou).
+        -- rewrite (proj1 (F1 u Hne)) in Hou. rewrite Hps. apply (HD u ou Hu Hou).
       * case_eq (aget (w_api w) s); [intros os Eos|intros Eos; apply Ex1 in Eos; congruence].
         exact (handler_post _ _ _ _ _ _ EH Eos Hp Hm (proj2 Hrr) (proj1 Hrr) ou Hou).
     + destruct Ht as [Ht|[<- |Ht]]; auto.
@@ -88,19 +89,20 @@ Proof.
       destruct (w_gate w) eqn:Egate; [|right; left; reflexivity].
       pose proof (HGP eq_refl) as Hp.
       pose proof (apply_handler_inv rank w s k w1 r EH (fun _ => Hp) HI) as (F1 & Ex1 & _).
+      pose proof (apply_handler_pools rank _ _ _ _ _ EH) as Hps.
       destruct r.
-      * right. right. cbn [w_api w_queue]. intros t ot Ht. destruct (N.eq_dec t s) as [->|Hne].
+      * right. right. cbn [w_api w_queue w_ctl]. intros t ot Ht. destruct (N.eq_dec t s) as [->|Hne].
         -- right. case_eq (aget (w_api w) s); [intros os Eos|intros Eos; apply Ex1 in Eos; congruence].
            apply (handler_post _ _ _ _ _ _ EH Eos Hp HI); [discriminate|discriminate|exact Ht].
-        -- rewrite (proj1 (F1 t Hne)) in Ht. destruct (H t ot Ht); [left; apply In_dequeue; auto|right; assumption].
-      * right. right. cbn [w_api w_queue]. intros t ot Ht. destruct (N.eq_dec t s) as [->|Hne].
+        -- rewrite (proj1 (F1 t Hne)) in Ht. destruct (H t ot Ht); [left; apply In_dequeue; auto|right; rewrite Hps; assumption].
+      * right. right. cbn [w_api w_queue w_ctl]. intros t ot Ht. destruct (N.eq_dec t s) as [->|Hne].
         -- left. apply negb_false_iff, memN_In in Eq. exact Eq.
-        -- rewrite (proj1 (F1 t Hne)) in Ht. destruct (H t ot Ht); [left; assumption|right; assumption].
+        -- rewrite (proj1 (F1 t Hne)) in Ht. destruct (H t ot Ht); [left; assumption|right; rewrite Hps; assumption].
       * left. cbn. apply orb_true_r.
-      * right. right. cbn [w_api w_queue]. intros t ot Ht. destruct (N.eq_dec t s) as [->|Hne].
+      * right. right. cbn [w_api w_queue w_ctl]. intros t ot Ht. destruct (N.eq_dec t s) as [->|Hne].
         -- right. case_eq (aget (w_api w) s); [intros os Eos|intros Eos; apply Ex1 in Eos; congruence].
            apply (handler_post _ _ _ _ _ _ EH Eos Hp HI); [discriminate|discriminate|exact Ht].
-        -- rewrite (proj1 (F1 t Hne)) in Ht. destruct (H t ot Ht); [left; apply In_dequeue; auto|right; assumption].
+        -- rewrite (proj1 (F1 t Hne)) in Ht. destruct (H t ot Ht); [left; apply In_dequeue; auto|right; rewrite Hps; assumption].
   - destruct (negb (w_reload w)) eqn:Er; [discriminate|]. apply negb_false_iff in Er.
     destruct (negb (same_set order (map fst (w_api w)) && desc_by_status w order)) eqn:Eo; [discriminate|].
     apply negb_false_iff, andb_true_iff in Eo. destruct Eo as [Eo _].
@@ -125,7 +127,7 @@ Qed.
 
 Theorem quiescent_post evs w :
   wrun rank evs world0 = Some w -> quiescent w ->
-  forall s o, aget (w_api w) s = Some o -> post o.
+  forall s o, aget (w_api w) s = Some o -> post (s_pools (c_mem (w_ctl w))) o.
 Proof.
   intros Hr (Hq1 & Hq2 & Hq3).
   destruct (wrun_L evs world0 w WInv_world0 (or_intror (or_introl eq_refl)) Hr) as [_ [H|[H|H]]]; [congruence|congruence|].
@@ -337,18 +339,54 @@ Qed.
 End Fam.
 End Inst.
 
+(* C02: the pool annotation names a configured pool that owns every address of the
+   status and whose namespace / service selectors admit the Service *)
+Definition post_pool (ps : pools) (o : svcobj) : Prop :=
+  o_want o <> WInvalid -> o_status o <> [] ->
+  exists p, In p (by_name ps) /\ o_annot o = Some (p_name p) /\
+            (forall x, In x (o_status o) -> in_pool p x = true) /\ compatible p (o_req o) = true.
+
+Lemma converge_post_pool rank a s o k v ok : minv a ->
+  converge rank a s o k = CR v ok -> post_pool (s_pools a) (with_status o (cv_status v) (cv_annot v)).
+Proof.
+  intros Hm EC Hw Hst. cbn [with_status o_want o_status o_annot o_req] in *.
+  destruct ok; [|destruct (converge_fail_status rank _ _ _ _ _ EC); congruence].
+  assert (Hlb : o_lb o = true).
+  { destruct (o_lb o) eqn:E; [reflexivity|]. unfold converge in EC. rewrite E in EC. cbn in EC. injection EC as <-. cbn in Hst. congruence. }
+  destruct (converge_ok_annot rank s _ _ _ _ EC Hlb) as (_ & Han & _).
+  pose proof (converge_synced rank s _ _ _ _ _ EC) as Hs. unfold synced in Hs.
+  pose proof (converge_attrs rank s _ _ _ _ _ EC) as HAT.
+  destruct (converge_frame _ _ _ _ _ _ _ EC) as [_ HF2].
+  unfold ips_of in Hs. unfold pool_of in Han.
+  destruct (get_alloc (cv_mem v) s) as [al|] eqn:Hg.
+  - destruct (HAT al Hg) as (_ & _ & p & Hpf & Hn & Hc). rewrite HF2 in Hpf.
+    apply pool_for_spec in Hpf. destruct Hpf as [Hin Hall].
+    exists p. split; [exact Hin|]. split; [rewrite Han; cbn; congruence|]. split; [|exact Hc].
+    intros x Hx. apply Hall. apply Hs. exact Hx.
+  - exfalso. destruct (cv_status v) as [|x l]; [congruence|]. destruct (Hs x) as [_ H]. apply H. left. reflexivity.
+Qed.
+
 (* ---------- the two instances, for every history ---------- *)
 Theorem quiescent_explicit_exact rank evs w s o d :
   wrun rank evs world0 = Some w -> quiescent w -> aget (w_api w) s = Some o ->
   o_want o = WIps d -> (is_prefer (r_pol (o_req o)) && is_dual (r_fam (o_req o))) = false ->
   o_status o = [] \/ same_ips (o_status o) d.
 Proof.
-  intros Hr Hq Ho. apply (quiescent_post rank post_explicit (fun a s o k v ok => converge_post_explicit rank a s o k v ok) evs w Hr Hq s o Ho).
+  intros Hr Hq Ho. apply (quiescent_post rank (fun _ => post_explicit) (fun a s o k v ok => converge_post_explicit rank a s o k v ok) evs w Hr Hq s o Ho).
 Qed.
 
 Theorem quiescent_family_ok rank evs w s o :
   wrun rank evs world0 = Some w -> quiescent w -> aget (w_api w) s = Some o -> o_status o <> [] ->
   o_lb o = true /\ family_changed (alloc_fam (o_status o)) (r_fam (o_req o)) (r_pol (o_req o)) = false.
 Proof.
-  intros Hr Hq Ho. apply (quiescent_post rank post_family (fun a s o k v ok => converge_post_family rank s o a k v ok) evs w Hr Hq s o Ho).
+  intros Hr Hq Ho. apply (quiescent_post rank (fun _ => post_family) (fun a s o k v ok => converge_post_family rank s o a k v ok) evs w Hr Hq s o Ho).
+Qed.
+
+Theorem quiescent_pool_admits rank evs w s o :
+  wrun rank evs world0 = Some w -> quiescent w -> aget (w_api w) s = Some o ->
+  o_want o <> WInvalid -> o_status o <> [] ->
+  exists p, In p (by_name (s_pools (c_mem (w_ctl w)))) /\ o_annot o = Some (p_name p) /\
+            (forall x, In x (o_status o) -> in_pool p x = true) /\ compatible p (o_req o) = true.
+Proof.
+  intros Hr Hq Ho. apply (quiescent_post rank post_pool (fun a s o k v ok => converge_post_pool rank a s o k v ok) evs w Hr Hq s o Ho).
 Qed.
